@@ -110,7 +110,7 @@ def inScope (selected : List Server) : Bool :=
   selected.all fun s => s.ip.toBytes != lastServerMarker && wellTypedB schema s.info
 
 def wfReqB (r : ListRequest) : Bool :=
-  r.header.length == 7 && r.gameName.all (· ≠ 0) && r.queryGame.all (· ≠ 0) && r.challenge.length == 8 && r.filter.all (· ≠ 0)
+  r.header.length == 7 && r.gameName.all (· ≠ 0) && r.queryGame.all (· ≠ 0) && r.filter.all (· ≠ 0)
     && r.rawFields.all (fun f => f.all fun x => x ≠ 0 && x ≠ 0x5c) && (reqBody r).length + 2 < 65536
 
 /-- model vs implementation for one request/registry; returns `(same, info, parsedRequest?)` -/
@@ -158,10 +158,11 @@ def handle (args out : List String) : Verdict :=
     match hex? hdr, hex? g1, hex? g2, hex? chal, hex? filt, hexList? raw, hex? opts, hex? sent, ip? cip, cport.toNat?, records? stored with
     | some hdr, some g1, some g2, some chal, some filt, some raw, some opts, some sent, some cip, some cport, some recs =>
       let wf? : Option Bool := if opts = [0, 0, 0, 0] then some false else if opts = [0, 0, 0, 1] then some true else none
-      match wf? with
-      | none => .bad "options"
-      | some wf =>
-        let r : ListRequest := { header := hdr, gameName := g1, queryGame := g2, challenge := chal, filter := filt, rawFields := raw, withFields := wf }
+      match wf?, toVec? 8 chal with
+      | none, _ => .bad "options"
+      | _, none => .bad "challenge length"
+      | some wf, some chalv =>
+        let r : ListRequest := { header := hdr, gameName := g1, queryGame := g2, challenge := chalv, filter := filt, rawFields := raw, withFields := wf }
         if encodeReq r != sent then .bad "encodeReq differs from the payload the harness sent" else
         let client : Client := { ip := cip, port := cport }
         let selected := selectedOf recs
